@@ -15,7 +15,7 @@ RULE = ("grammar-directed files per format (BED3/6/12, bedGraph, narrowPeak, chr
         "genotype columns in 5 buffer flavours, 2-line and wrapped FASTA, FASTQ): 1..N records, field widths 0..18 with "
         "single-character and very unequal widths inside one column, signed ints, '.' placeholders, trailing list commas, "
         "LF/CRLF x {final line terminated, unterminated, ended by a bare LF}, FORMAT sub-fields dropped per sample, floats "
-        "without leading zero mixed with '.' missing, header/comment lines; two-file HISTORY cases in one process (same INFO "
+        "without leading zero mixed with '.' missing, typed INFO key FAMILIES (names that are a proper prefix / suffix / case variant of one another or the value of a String key, part of the family undeclared), header/comment lines; two-file HISTORY cases in one process (same INFO "
         "IDs with other Type/Number, same header with another buffer flavour, same column names with other declared types; both "
         "orders); delimited tables with a column-name header line; GTF / GFF3 attribute lookups (gene_id, transcript_id, exon_number, "
         "... per feature type; keys that are the tail of a longer key, quoted values containing ';' / '=' / spaces, rows without the "
@@ -45,7 +45,7 @@ MANIFEST = {
             "listColumn_spec, optIntColumn_spec, crAdjust_crlf, kline_roles, fasta_wrapped_join (records with any number of lines, none "
             "included), commentTable_spec (comment lines anywhere, with or without TABs, never become entries), sam_extra / "
             "sam_rows_spec (whole buffer: first 11 fields + rest of line = remaining fields joined by TAB), "
-            "info_subfields_spec / info_lookup_partial / infoLookup_none_iff (fails exactly on a duplicated key), genotype_triplets (all 32 "
+            "info_subfields_spec / info_lookup_partial / infoLookup_none_iff (fails exactly on a duplicated key), infoFlag_iff / info_key_family (keys are compared by their whole name: a row holding only longer relatives DBX, DBSNP=.. of DB reads as DB absent), genotype_triplets (all 32 "
             "genotypes, int8 wrap included), fasta_seqLens, vcf_pos; characterisations in plain List/Nat terms: delimsFrom_mem_iff / "
             "delimsFrom_sorted (the delimiter array is exactly the increasing list of delimiter positions), splitOn_length, "
             "linesOf_length, chunkF_flatten_take (reshape only regroups), fieldTable_ok_iff (the table is built exactly for buffers whose "
@@ -730,6 +730,49 @@ def g_vcf_optional_focus(rng):
     return head + lines
 
 
+def g_vcf_key_family(rng):
+    """typed INFO keys whose NAMES are related to one another: one key is a proper prefix / suffix / infix of another
+    (DB, DBX, XDB, DBDB, D), differs only in letter case (db), or occurs as the VALUE of a String key (SV=DB).  A random
+    part of the family is declared in the header with random types (at least one Flag and one key=value kind); the
+    records carry items of the WHOLE family (a key that is not declared is simply not a column), in any order, so a
+    declared key is regularly absent from a record that holds a relative of it."""
+    stem = rng.choice(["DB", "H2", "K1", "AC", "A", "DP", "END"])
+    x = rng.choice("XS0_")
+    family = [stem, stem + x, rng.choice("XS_") + stem, stem + stem, stem + x + rng.choice("YZ1"), stem.lower() if stem.lower() != stem else stem + "x"]
+    if len(stem) > 1:
+        family += [stem[:-1], stem[1:]]
+    # INFO keys are identifiers ([A-Za-z_][0-9A-Za-z_.]*, VCF 4.2 section 1.6.1): a name cannot start with a digit
+    family = [k for k in dict.fromkeys(family) if not k[0].isdigit()]
+    kinds = [("0", "Flag"), ("0", "Flag"), ("1", "Integer"), ("1", "String"), ("1", "Float"), (".", "Integer"), ("A", "Float")]
+    typ = {k: rng.choice(kinds) for k in family}
+    typ[stem] = rng.choice([("0", "Flag"), ("0", "Flag"), ("1", "Integer"), ("1", "String")])
+    declared = [stem] + rng.sample(family[1:], rng.randrange(1, len(family)))
+    if not any(typ[k][1] == "Flag" for k in declared):
+        typ[declared[-1]] = ("0", "Flag")
+    if all(typ[k][1] == "Flag" for k in declared):
+        typ[declared[-1]] = ("1", "String")
+    rng.shuffle(declared)
+    head = ["##fileformat=VCFv4.2"]
+    for k in declared:
+        head.append(f'##INFO=<ID={k},Number={typ[k][0]},Type={typ[k][1]},Description="{g_ident(rng)}">')
+    head.append("#CHROM\tPOS\tID\tREF\tALT\tQUAL\tFILTER\tINFO")
+    lines = []
+    for _ in range(rng.choice([1, 2, 3, 4, 6])):
+        items = []
+        for k in rng.sample(family, rng.choice([0, 1, 1, 2, 3, len(family)])):
+            num, t = typ[k]
+            if t == "Flag":
+                items.append(k)
+            elif t == "String":
+                items.append(k + "=" + rng.choice(family + [g_ident(rng)]))        # a value that is itself a key name
+            else:
+                cnt = 1 if num == "1" else rng.choice([1, 2, 3])
+                items.append(k + "=" + ",".join(g_uint(rng, rng.choice([1, 2, 3])) if t == "Integer" else g_float(rng) for _ in range(cnt)))
+        lines.append("\t".join([g_ident(rng), g_uint(rng, 3, lead0=False).lstrip("0") or "1", ".", "A", "C", ".", "PASS",
+                                 ";".join(items) if items else "."]))
+    return head + lines
+
+
 ATTR_KEYS = {"genes": ["gene_id"], "transcripts": ["transcript_id", "gene_id"], "exons": ["transcript_id", "gene_id", "exon_id"]}
 FEATURE = {"genes": "gene", "transcripts": "transcript", "exons": "exon"}
 
@@ -875,6 +918,9 @@ def cases(tier, rng):
     yield from buffer_op_cases(tier, rng)
     for _ in range(60 * mult):
         yield _case("vcf", g_vcf_optional_focus(rng), rng.random() < 0.15, flavour="VCFBuffer")
+    for _ in range(40 * mult):      # INFO keys whose names are prefixes / suffixes / case variants / values of one another
+        yield _case("vcf", g_vcf_key_family(rng), rng.random() < 0.15, flavour=rng.choice(["VCFBuffer", "VCFBuffer", "VCFBuffer2"]),
+                    end=rng.choice(["nl", "nl", "none"]))
     for _ in range(4 * mult):       # a handful: the genotype matrix readers on genotypes outside their supported subset
         for fl in ("VCFMatrixBuffer", "PhasedVCFMatrixBuffer", "PhasedHaplotypeVCFMatrixBuffer"):
             yield _case("vcf", g_vcf_many_alleles(rng, fl), False, flavour=fl)
